@@ -236,6 +236,31 @@ def extraction_stream(rng, res, n):
             res.failures.append(('extr-len:%r' % tex, case, 'length mismatch'))
 
 
+def parser_reuse_stream(rng, res, n):
+    """one Parser object for a sequence of documents (Python interface,
+    as tests/test_extract.py uses it): the extraction of each document
+    consists of the arguments of that document and nothing else"""
+    from yalafi import parameters, parser, utils
+    listed = ['\\input', '\\include', '\\foo']
+    docs_ = extraction_cases(rng, n)
+    shared = parser.Parser(parameters.Parameters('en'))
+    for i, (tex, items) in enumerate(docs_):
+        case = {'kind': 'extr-reuse', 'tex': tex, 'before': [t for t, _ in docs_[:i]][-3:]}
+        res.count('parser-reuse', (i, tex), nontrivial=i > 0)
+        try:
+            fresh = parser.Parser(parameters.Parameters('en'))
+            a = utils.get_txt_pos(fresh.parse(tex, extract=listed))
+            b = utils.get_txt_pos(shared.parse(tex, extract=listed))
+        except BaseException as e:
+            res.failures.append(('extr-reuse-exc:%d' % i, case, 'exception %r' % e))
+            continue
+        if a != b:
+            res.failures.append(('extr-reuse:%d:%r' % (i, tex), case,
+                                 'call %d on one parser object extracts %r, a new '
+                                 'parser extracts %r from the same document'
+                                 % (i + 1, b[0].split(), a[0].split())))
+
+
 def run(tier, seed, build, res):
     rng = random.Random(seed)
     res.rule = ('inclusion graphs: all edge sets over files %r (3 files '
@@ -273,6 +298,7 @@ def run(tier, seed, build, res):
     res.extra['exhaustive_3_files'] = tier == 'thorough'
     graph_stream(cases, res, 'graphs')
     extraction_stream(rng, res, 300 if tier == 'quick' else 5000)
+    parser_reuse_stream(rng, res, 40 if tier == 'quick' else 600)
 
 
 def replay(payload, build, res):
